@@ -45,6 +45,14 @@ pub fn judge(ctx: &mut Ctx, base: &dyn Base, what: &str, d: &Delivered, kind: &s
         (_, true, Some(true)) => "accepted_content_unchanged",
         _ => "ACCEPTED_CONTENT_CHANGED",
     });
+    // A different nonce that satisfies the proof-of-work bound and leads to the same query
+    // positions gives another CORRECT proof of the same statement (the prover's choice among
+    // valid nonces is arbitrary - C14 says as much); on tiny domains with few queries a random
+    // nonce does that with noticeable probability. Acceptance proves both conditions hold.
+    if accepted && d.only_nonce_differs {
+        ctx.probe("accepted_another_valid_nonce_same_positions");
+        return;
+    }
     if accepted && d.same_content != Some(true) {
         ctx.violation(
             format!("C03/{kind}/modified-proof-accepted {}", region(what)),
